@@ -101,7 +101,7 @@ Proof. apply chk_some. Qed.
 Lemma w_lcm_sound k a b v : w_lcm (Some k) a b = Some v -> v = int_lcm a b.
 Proof.
   intros H. pose proof (w_lcm_none a b) as N. unfold w_lcm in *.
-  destruct ((a =? 0) && (b =? 0)); [congruence|]. chk_cases H. apply chk_some in H. cbn [chk obind] in N. congruence.
+  destruct ((a =? 0) && (b =? 0)); [congruence|]. chk_cases H. cbn [chk obind] in N. congruence.
 Qed.
 Lemma w_egcd_loop_sound k : forall fuel r0 r1 s0 s1 t0 t1 v,
   w_egcd_loop (Some k) fuel r0 r1 s0 s1 t0 t1 = Some v -> egcd_loop fuel r0 r1 s0 s1 t0 t1 = Some v.
